@@ -92,7 +92,7 @@ package lua
 //@ ensures  "raw-hit": old(isTab(obj) && view(tab(obj), key) != LNil) ==> result == old(view(tab(obj), key)) && ncalls() == old(ncalls())
 //@ ensures  "absent-no-handler": old(isTab(obj) && view(tab(obj), key) == LNil && mtEvent(ls, obj, "__index") == LNil) ==> result == LNil && ncalls() == old(ncalls())
 //@ ensures  "function-handler": old((!isTab(obj) || view(tab(obj), key) == LNil) && isFn(mtEvent(ls, obj, "__index"))) ==> ncalls() == old(ncalls()) + 1 && callfn(old(ncalls())) == fnid("(*LState).Call") && callargLV(old(ncalls()), 10) == old(mtEvent(ls, obj, "__index")) && callargLV(old(ncalls()), 11) == obj && callargLV(old(ncalls()), 12) == key && result == callresLV(old(ncalls()), 10)
-//@ ensures  "at-most-one-call": ncalls() <= old(ncalls()) + 1 && (ncalls() == old(ncalls()) + 1 ==> callfn(old(ncalls())) == fnid("(*LState).Call") && isFn(callargLV(old(ncalls()), 10)) && callargLV(old(ncalls()), 12) == key && callargInt(old(ncalls()), 1) == 2 && callargInt(old(ncalls()), 2) == 1 && result == callresLV(old(ncalls()), 10))
+//@ ensures  "at-most-one-call": ncalls() <= old(ncalls()) + 1 && (ncalls() == old(ncalls()) + 1 ==> callfn(old(ncalls())) == fnid("(*LState).Call") && isFn(callargLV(old(ncalls()), 10)) && (forall o LValue :: o == callargLV(old(ncalls()), 11) ==> callargLV(old(ncalls()), 10) == old(mtEvent(ls, o, "__index"))) && callargLV(old(ncalls()), 12) == key && callargInt(old(ncalls()), 1) == 2 && callargInt(old(ncalls()), 2) == 1 && result == callresLV(old(ncalls()), 10))
 //@ modifies everything
 //@ loop 1 invariant 0 <= i && valOK(curobj) && (i == 0 ==> curobj == obj) && ncalls() == old(ncalls())
 //@ loop 1 invariant i > 0 ==> old((!isTab(obj) || view(tab(obj), key) == LNil) && mtEvent(ls, obj, "__index") != LNil && !isFn(mtEvent(ls, obj, "__index")))
